@@ -5,6 +5,7 @@ import tgops
 import ioops
 import iomodel
 
+ESCALATE_MAX = 60000      # cases drawn at most when a changed source file makes the quick tier look harder
 RULE = ("random well-formed textgrids as in C01, labels and tier names additionally drawn from the formats' own keywords "
         "('item [2]:', 'intervals [1]:', '\"IntervalTier\"', 'text = \"x\"', 'ooTextFile short', ...) x includeBlankSpaces x "
         "optional minTimestamp/maxTimestamp overrides at / beyond the data span; each textgrid is written in all four "
